@@ -1,18 +1,3 @@
-#![allow(dead_code)]
+#![allow(dead_code, unused_imports, clippy::all)]
 #[cfg(kani)]
-mod probe {
-    use srtla_protocol::*;
-    #[kani::proof]
-    #[kani::unwind(9)]
-    fn probe_ack() {
-        let buf: [u8; 24] = kani::any();
-        let len: usize = kani::any();
-        kani::assume(len <= 24);
-        let r = parse_srt_ack(&buf[..len]);
-        if len >= 20 && buf[0] == 0x80 && buf[1] == 0x02 {
-            assert_eq!(r, Some(u32::from_be_bytes([buf[16], buf[17], buf[18], buf[19]])));
-        } else {
-            assert!(r.is_none());
-        }
-    }
-}
+mod c15;
